@@ -123,7 +123,8 @@ func obj4[T any, P interface {
 		}}
 }
 
-// gateway: the codecs are unexported methods; the harness reaches them by name.
+// gateway: the codecs are unexported methods. RPC objects and the block outline are reached through the export
+// shim gateway/verif_export.go (build tag verif); the handshake header has no shim and is reached by name.
 
 //go:linkname gwHeaderEnc go.sia.tech/core/gateway.(*Header).encodeTo
 func gwHeaderEnc(*gateway.Header, *types.Encoder)
@@ -131,89 +132,17 @@ func gwHeaderEnc(*gateway.Header, *types.Encoder)
 //go:linkname gwHeaderDec go.sia.tech/core/gateway.(*Header).decodeFrom
 func gwHeaderDec(*gateway.Header, *types.Decoder)
 
-//go:linkname gwOutlineEnc go.sia.tech/core/gateway.(*V2BlockOutline).encodeTo
-func gwOutlineEnc(*gateway.V2BlockOutline, *types.Encoder)
-
-//go:linkname gwOutlineDec go.sia.tech/core/gateway.(*V2BlockOutline).decodeFrom
-func gwOutlineDec(*gateway.V2BlockOutline, *types.Decoder)
-
-//go:linkname gwShareNodesEncResp go.sia.tech/core/gateway.(*RPCShareNodes).encodeResponse
-func gwShareNodesEncResp(*gateway.RPCShareNodes, *types.Encoder)
-
-//go:linkname gwShareNodesDecResp go.sia.tech/core/gateway.(*RPCShareNodes).decodeResponse
-func gwShareNodesDecResp(*gateway.RPCShareNodes, *types.Decoder)
-
-//go:linkname gwDiscoverIPEncResp go.sia.tech/core/gateway.(*RPCDiscoverIP).encodeResponse
-func gwDiscoverIPEncResp(*gateway.RPCDiscoverIP, *types.Encoder)
-
-//go:linkname gwDiscoverIPDecResp go.sia.tech/core/gateway.(*RPCDiscoverIP).decodeResponse
-func gwDiscoverIPDecResp(*gateway.RPCDiscoverIP, *types.Decoder)
-
-//go:linkname gwSendHeadersEncReq go.sia.tech/core/gateway.(*RPCSendHeaders).encodeRequest
-func gwSendHeadersEncReq(*gateway.RPCSendHeaders, *types.Encoder)
-
-//go:linkname gwSendHeadersDecReq go.sia.tech/core/gateway.(*RPCSendHeaders).decodeRequest
-func gwSendHeadersDecReq(*gateway.RPCSendHeaders, *types.Decoder)
-
-//go:linkname gwSendHeadersEncResp go.sia.tech/core/gateway.(*RPCSendHeaders).encodeResponse
-func gwSendHeadersEncResp(*gateway.RPCSendHeaders, *types.Encoder)
-
-//go:linkname gwSendHeadersDecResp go.sia.tech/core/gateway.(*RPCSendHeaders).decodeResponse
-func gwSendHeadersDecResp(*gateway.RPCSendHeaders, *types.Decoder)
-
-//go:linkname gwSendV2BlocksEncReq go.sia.tech/core/gateway.(*RPCSendV2Blocks).encodeRequest
-func gwSendV2BlocksEncReq(*gateway.RPCSendV2Blocks, *types.Encoder)
-
-//go:linkname gwSendV2BlocksDecReq go.sia.tech/core/gateway.(*RPCSendV2Blocks).decodeRequest
-func gwSendV2BlocksDecReq(*gateway.RPCSendV2Blocks, *types.Decoder)
-
-//go:linkname gwSendV2BlocksEncResp go.sia.tech/core/gateway.(*RPCSendV2Blocks).encodeResponse
-func gwSendV2BlocksEncResp(*gateway.RPCSendV2Blocks, *types.Encoder)
-
-//go:linkname gwSendV2BlocksDecResp go.sia.tech/core/gateway.(*RPCSendV2Blocks).decodeResponse
-func gwSendV2BlocksDecResp(*gateway.RPCSendV2Blocks, *types.Decoder)
-
-//go:linkname gwSendTransactionsEncReq go.sia.tech/core/gateway.(*RPCSendTransactions).encodeRequest
-func gwSendTransactionsEncReq(*gateway.RPCSendTransactions, *types.Encoder)
-
-//go:linkname gwSendTransactionsDecReq go.sia.tech/core/gateway.(*RPCSendTransactions).decodeRequest
-func gwSendTransactionsDecReq(*gateway.RPCSendTransactions, *types.Decoder)
-
-//go:linkname gwSendTransactionsEncResp go.sia.tech/core/gateway.(*RPCSendTransactions).encodeResponse
-func gwSendTransactionsEncResp(*gateway.RPCSendTransactions, *types.Encoder)
-
-//go:linkname gwSendTransactionsDecResp go.sia.tech/core/gateway.(*RPCSendTransactions).decodeResponse
-func gwSendTransactionsDecResp(*gateway.RPCSendTransactions, *types.Decoder)
-
-//go:linkname gwSendCheckpointEncReq go.sia.tech/core/gateway.(*RPCSendCheckpoint).encodeRequest
-func gwSendCheckpointEncReq(*gateway.RPCSendCheckpoint, *types.Encoder)
-
-//go:linkname gwSendCheckpointDecReq go.sia.tech/core/gateway.(*RPCSendCheckpoint).decodeRequest
-func gwSendCheckpointDecReq(*gateway.RPCSendCheckpoint, *types.Decoder)
-
-//go:linkname gwSendCheckpointEncResp go.sia.tech/core/gateway.(*RPCSendCheckpoint).encodeResponse
-func gwSendCheckpointEncResp(*gateway.RPCSendCheckpoint, *types.Encoder)
-
-//go:linkname gwSendCheckpointDecResp go.sia.tech/core/gateway.(*RPCSendCheckpoint).decodeResponse
-func gwSendCheckpointDecResp(*gateway.RPCSendCheckpoint, *types.Decoder)
-
-//go:linkname gwRelayV2HeaderEncReq go.sia.tech/core/gateway.(*RPCRelayV2Header).encodeRequest
-func gwRelayV2HeaderEncReq(*gateway.RPCRelayV2Header, *types.Encoder)
-
-//go:linkname gwRelayV2HeaderDecReq go.sia.tech/core/gateway.(*RPCRelayV2Header).decodeRequest
-func gwRelayV2HeaderDecReq(*gateway.RPCRelayV2Header, *types.Decoder)
-
-//go:linkname gwRelayV2BlockOutlineEncReq go.sia.tech/core/gateway.(*RPCRelayV2BlockOutline).encodeRequest
-func gwRelayV2BlockOutlineEncReq(*gateway.RPCRelayV2BlockOutline, *types.Encoder)
-
-//go:linkname gwRelayV2BlockOutlineDecReq go.sia.tech/core/gateway.(*RPCRelayV2BlockOutline).decodeRequest
-func gwRelayV2BlockOutlineDecReq(*gateway.RPCRelayV2BlockOutline, *types.Decoder)
-
-//go:linkname gwRelayV2TransactionSetEncReq go.sia.tech/core/gateway.(*RPCRelayV2TransactionSet).encodeRequest
-func gwRelayV2TransactionSetEncReq(*gateway.RPCRelayV2TransactionSet, *types.Encoder)
-
-//go:linkname gwRelayV2TransactionSetDecReq go.sia.tech/core/gateway.(*RPCRelayV2TransactionSet).decodeRequest
-func gwRelayV2TransactionSetDecReq(*gateway.RPCRelayV2TransactionSet, *types.Decoder)
+// gwHalf registers the request or the response half of a gateway RPC object (export shim gateway/verif_export.go).
+func gwHalf[T any, P interface {
+	*T
+	gateway.Object
+}](name string, request bool) *WireType {
+	enc, dec := gateway.VerifEncodeResponse, gateway.VerifDecodeResponse
+	if request {
+		enc, dec = gateway.VerifEncodeRequest, gateway.VerifDecodeRequest
+	}
+	return fn("gateway", name, func(v *T, e *types.Encoder) { enc(P(v), e) }, func(v *T, d *types.Decoder) { dec(P(v), d) })
+}
 
 func rhp4Error() *WireType {
 	return &WireType{Pkg: "rhp4", Name: "rhp4_RPCError", GoType: reflect.TypeOf(rhp4.RPCError{}), MaxBytes: 1024,
@@ -312,20 +241,20 @@ func Types() []*WireType {
 	t(std[consensus.V1BlockSupplement]("consensus", "consensus_V1BlockSupplement"))
 	// ---- gateway
 	t(fn("gateway", "gateway_Header", gwHeaderEnc, gwHeaderDec))
-	t(fn("gateway", "gateway_V2BlockOutline", gwOutlineEnc, gwOutlineDec))
-	t(fn("gateway", "gateway_RPCShareNodes_Response", gwShareNodesEncResp, gwShareNodesDecResp))
-	t(fn("gateway", "gateway_RPCDiscoverIP_Response", gwDiscoverIPEncResp, gwDiscoverIPDecResp))
-	t(fn("gateway", "gateway_RPCSendHeaders_Request", gwSendHeadersEncReq, gwSendHeadersDecReq))
-	t(fn("gateway", "gateway_RPCSendHeaders_Response", gwSendHeadersEncResp, gwSendHeadersDecResp))
-	t(fn("gateway", "gateway_RPCSendV2Blocks_Request", gwSendV2BlocksEncReq, gwSendV2BlocksDecReq))
-	t(fn("gateway", "gateway_RPCSendV2Blocks_Response", gwSendV2BlocksEncResp, gwSendV2BlocksDecResp))
-	t(fn("gateway", "gateway_RPCSendTransactions_Request", gwSendTransactionsEncReq, gwSendTransactionsDecReq))
-	t(fn("gateway", "gateway_RPCSendTransactions_Response", gwSendTransactionsEncResp, gwSendTransactionsDecResp))
-	t(fn("gateway", "gateway_RPCSendCheckpoint_Request", gwSendCheckpointEncReq, gwSendCheckpointDecReq))
-	t(fn("gateway", "gateway_RPCSendCheckpoint_Response", gwSendCheckpointEncResp, gwSendCheckpointDecResp))
-	t(fn("gateway", "gateway_RPCRelayV2Header_Request", gwRelayV2HeaderEncReq, gwRelayV2HeaderDecReq))
-	t(fn("gateway", "gateway_RPCRelayV2BlockOutline_Request", gwRelayV2BlockOutlineEncReq, gwRelayV2BlockOutlineDecReq))
-	t(fn("gateway", "gateway_RPCRelayV2TransactionSet_Request", gwRelayV2TransactionSetEncReq, gwRelayV2TransactionSetDecReq))
+	t(fn("gateway", "gateway_V2BlockOutline", gateway.VerifEncodeOutline, gateway.VerifDecodeOutline))
+	t(gwHalf[gateway.RPCShareNodes]("gateway_RPCShareNodes_Response", false))
+	t(gwHalf[gateway.RPCDiscoverIP]("gateway_RPCDiscoverIP_Response", false))
+	t(gwHalf[gateway.RPCSendHeaders]("gateway_RPCSendHeaders_Request", true))
+	t(gwHalf[gateway.RPCSendHeaders]("gateway_RPCSendHeaders_Response", false))
+	t(gwHalf[gateway.RPCSendV2Blocks]("gateway_RPCSendV2Blocks_Request", true))
+	t(gwHalf[gateway.RPCSendV2Blocks]("gateway_RPCSendV2Blocks_Response", false))
+	t(gwHalf[gateway.RPCSendTransactions]("gateway_RPCSendTransactions_Request", true))
+	t(gwHalf[gateway.RPCSendTransactions]("gateway_RPCSendTransactions_Response", false))
+	t(gwHalf[gateway.RPCSendCheckpoint]("gateway_RPCSendCheckpoint_Request", true))
+	t(gwHalf[gateway.RPCSendCheckpoint]("gateway_RPCSendCheckpoint_Response", false))
+	t(gwHalf[gateway.RPCRelayV2Header]("gateway_RPCRelayV2Header_Request", true))
+	t(gwHalf[gateway.RPCRelayV2BlockOutline]("gateway_RPCRelayV2BlockOutline_Request", true))
+	t(gwHalf[gateway.RPCRelayV2TransactionSet]("gateway_RPCRelayV2TransactionSet_Request", true))
 	// ---- rhp/v4
 	t(std[rhp4.Account]("rhp4", "rhp4_Account"))
 	t(std[rhp4.AccountDeposit]("rhp4", "rhp4_AccountDeposit"))
